@@ -76,8 +76,12 @@ func printed(m univ.M) string {
 		return m.S
 	case "int":
 		return strconv.FormatInt(m.I, 10)
-	case "float":
+	case "float", "float32":
 		return fmt.Sprintf("%f", m.F)
+	case "uint", "uint8", "uint16", "uint32", "uint64":
+		return strconv.FormatUint(m.U, 10)
+	case "int8", "int16", "int32", "int64":
+		return strconv.FormatInt(m.I, 10)
 	case "bool":
 		if m.B {
 			return "True"
@@ -95,8 +99,12 @@ func truthy(m univ.M) bool {
 		return m.S != ""
 	case "int":
 		return m.I != 0
-	case "float":
+	case "float", "float32":
 		return m.F != 0
+	case "uint", "uint8", "uint16", "uint32", "uint64":
+		return m.U != 0
+	case "int8", "int16", "int32", "int64":
+		return m.I != 0
 	case "bool":
 		return m.B
 	case "ints", "strs", "slice", "array", "parray", "map":
@@ -838,7 +846,8 @@ func seqsOfLen(n int) []univ.M {
 			anys[i] = univ.Str(string(rune('a' + i)))
 		}
 	}
-	return []univ.M{univ.Ints(vals...), univ.Array(vals...), univ.PArray(vals...), univ.Strs(ss...), univ.Slice(anys...), univ.Str(ascii), univ.Str(string(mb[:n]))}
+	mb2 := []rune("éab€cd𝄞efßgh") // multi-byte first: the byte at a character index is an ASCII byte of ANOTHER character
+	return []univ.M{univ.Ints(vals...), univ.Array(vals...), univ.PArray(vals...), univ.Strs(ss...), univ.Slice(anys...), univ.Str(ascii), univ.Str(string(mb[:n])), univ.Str(string(mb2[:n]))}
 }
 
 func run(r *eng.Runner) {
@@ -988,7 +997,8 @@ func run(r *eng.Runner) {
 		do("pluralize", univ.Int(v), ps("es"))
 		do("pluralize", univ.Int(v), ps("y,ies"))
 	}
-	grid := []univ.M{univ.Nil(), univ.Str(""), univ.Str("a"), univ.Int(0), univ.Int(1), univ.Bool(false), univ.Bool(true), univ.Float(0), univ.Float(2.5), univ.Ints(), univ.Ints(1)}
+	grid := []univ.M{univ.Nil(), univ.Str(""), univ.Str("a"), univ.Int(0), univ.Int(1), univ.Bool(false), univ.Bool(true), univ.Float(0), univ.Float(2.5), univ.Ints(), univ.Ints(1),
+		univ.Float(0.5), univ.Float(-0.25), univ.Float(1e-9), {K: "float32", F: 0.75}, univ.Int(-1), {K: "uint8", U: 0}, {K: "uint8", U: 3}}
 	for _, v := range grid {
 		do("yesno", v, nil)
 		do("yesno", v, ps("ja,nein,vielleicht"))
